@@ -47,20 +47,28 @@ func c18Ops(pi spec.PathItem) []*spec.Operation {
 
 // one slot per (document, path, method): op is nil when the operation is absent
 type c18Slot struct {
-	op  *spec.Operation
-	old string
-	doc int
+	op      *spec.Operation
+	old     string
+	doc     int
+	skipped bool // the path item of this operation collides with an existing path and is not merged
 }
 
 func c18Doc(tag string, doc int, paths int, methods int, idLen int, slots []c18Slot) (*spec.Swagger, []c18Slot) {
 	d := &spec.Swagger{}
 	d.Paths = &spec.Paths{Paths: map[string]spec.PathItem{}}
 	for i := 0; i < paths; i++ {
-		// distinct concrete path keys: path collisions are the subject of C17
+		// concrete path keys, distinct per document; with collide=1 a mixin's first path may reuse the primary's
+		// first path key "/p0" (that path item is then skipped by Mixin: first document wins, C17)
 		pi := c18PathItem(tag+".path"+itoaSmall(i), methods, idLen)
-		d.Paths.Paths["/"+tag+itoaSmall(i)] = pi
+		key := "/" + tag + itoaSmall(i)
+		skipped := false
+		if doc > 0 && i == 0 && vrfParam("collide", 0) != 0 && vrfBool(tag+".path0.sameAsPrimary") {
+			key = "/p0"
+			skipped = true
+		}
+		d.Paths.Paths[key] = pi
 		for _, op := range c18Ops(pi) {
-			sl := c18Slot{op: op, doc: doc}
+			sl := c18Slot{op: op, doc: doc, skipped: skipped}
 			if op != nil {
 				sl.old = op.ID
 			}
@@ -110,6 +118,10 @@ func vrfH_C18() {
 		}
 		for i := 0; i < paths; i++ {
 			pi, ok := primary.Paths.Paths["/"+tag+itoaSmall(i)]
+			if slots[(d*paths+i)*7].skipped {
+				vrfAssert("skipped-path-not-merged", !ok)
+				continue
+			}
 			vrfAssert("path-present", ok)
 			for k, op := range c18Ops(pi) {
 				vrfAssert("operation-kept-in-place", op == slots[(d*paths+i)*7+k].op)
@@ -118,11 +130,11 @@ func vrfH_C18() {
 	}
 	renamed := false
 	for i, x := range slots {
-		if x.op == nil {
-			continue
+		if x.op == nil || x.skipped {
+			continue // operations of a skipped path item are not part of the merged document
 		}
 		for j, y := range slots {
-			if j > i && y.op != nil {
+			if j > i && y.op != nil && !y.skipped {
 				vrfAssert("non-empty-ids-pairwise-distinct", x.op.ID == "" || x.op.ID != y.op.ID)
 			}
 		}
@@ -140,7 +152,7 @@ func vrfH_C18() {
 			vrfAssert("changed-only-by-Mixin-suffix", isSuffixed)
 			others := false
 			for j, y := range slots {
-				if j != i && y.op != nil && y.old == x.old {
+				if j != i && y.op != nil && !y.skipped && y.old == x.old {
 					others = true
 				}
 			}
@@ -148,5 +160,8 @@ func vrfH_C18() {
 		}
 	}
 	vrfCover("some-id-renamed", renamed)
+	if vrfParam("collide", 0) != 0 {
+		vrfCover("a-mixin-path-item-is-skipped", slots[7*paths].skipped)
+	}
 	vrfCover("operation-without-id-in-mixin", slots[7*paths].op != nil && slots[7*paths].old == "")
 }
